@@ -17,11 +17,15 @@ RULE = ("inputs: every labelled conforming tetrahedral complex of TET (see bound
         "accessor transition system (incl. enable_boundary_connectivity and the standalone boundary extractor) is explored "
         "to a fixed point; a case = one distinct (mesh, config, cache state); non-trivial = complex has >= 2 cells")
 ASSUMPTIONS = ["tetrahedral complexes on <= 6 vertices (with interior edge from 5, interior vertex from 6 vertices) + cube/data specimens",
-               "edge rings are accepted in either rotational direction", "face and edge ids are taken from mesh.faces / mesh.edges (construction is C02's subject)"]
-BOUNDS = {"quick": "TET(4), TET(5) all labelled (27 complexes) x {sorted, positive, every single position-transposition of one cell}; TET(6) isomorphism classes (16) x {sorted, positive}; repo tests/data *.tet; cache-state BFS over histories of <= 2 events (every accessor evaluated in every state reached)",
-          "thorough": "TET(<=6) all labelled (2449) x {sorted, positive}; TET(<=5) with <=2 position transpositions; TET(6) classes with <=1; cache-state BFS to the fixed point for the base listings of TET(<=5), histories of <= 3 events otherwise"}
+               "edge rings are accepted in either rotational direction", "face and edge ids are taken from mesh.faces / mesh.edges (construction is C02's subject)",
+               "configuration deviation: every base listing is also built and queried with the completion switches of mouette.config off (faces - wound as the generated ones, or with ascending vertex ids - and/or edges supplied by the caller, or no edge list at all: the edge domains are then empty and every other accessor is judged as usual); with an edge list that is neither complete nor empty nothing is promised and nothing is asked"]
+BOUNDS = {"quick": "TET(4), TET(5) all labelled (27 complexes) x {sorted, positive, every single position-transposition of one cell}; TET(6) isomorphism classes (16) x {sorted, positive}; repo tests/data *.tet; cache-state BFS over histories of <= 2 events (every accessor evaluated in every state reached); base listings x 6 completion-switch configurations (histories of <= 1 event)",
+          "thorough": "TET(<=6) all labelled (2449) x {sorted, positive}; TET(<=5) with <=2 position transpositions; TET(6) classes with <=1; cache-state BFS to the fixed point for the base listings of TET(<=5), histories of <= 3 events otherwise; base listings x 6 completion-switch configurations (histories of <= 2 events)"}
 BATCH = 6
 DUP = [False]
+CFG = [None]
+CFG_CLASS = {"F": "faces_given:face_completion_off", "Fa": "faces_given_ascending_winding:face_completion_off", "E": "edges_given:edge_completion_off", "-": "no_edges:edge_completion_off",
+             "FE": "faces_and_edges_given:completion_off", "F-": "faces_given_no_edges:completion_off"}
 DEPTH = [2]     # bound on the number of state-changing events per history (set per tier in run_task)
 
 
@@ -98,7 +102,43 @@ def tasks(tier):
     base = [[x[0], x[1], x[2], 0, False] for x in ins if not x[4]]
     for i in range(0, len(base), 4):
         out.append({"sort": True, "dup": True, "depth": depth, "depth_base": depth, "complexes": base[i:i + 4]})
+    # configuration deviation: the completion switches of mouette.config.  'F' = complete_faces_from_cells off with the
+    # caller supplying the triangles of the cells, 'E' = complete_edges_from_faces off with the caller supplying the
+    # sides, '-' = switch off and nothing supplied (a mesh without edges: every accessor is still asked, the edge
+    # domains are empty).  The switches stay off for the whole exploration (construction and queries).
+    dcfg = {"quick": 1, "thorough": 2}[tier]
+    for cfg in CONFIGS:
+        for i in range(0, len(base), 4):
+            out.append({"sort": True, "cfg": cfg, "depth": dcfg, "depth_base": dcfg, "complexes": base[i:i + 4]})
     return out
+
+
+CONFIGS = ("F", "Fa", "E", "-", "FE", "F-")   # faces given (winding of the generated faces / arbitrary winding) / edges given / no edges / both given / faces given, no edges
+
+
+def _cfg_build(M, pts, cells, cfg):
+    import itertools
+    raw = M.mesh.RawMeshData()
+    raw.vertices += [M.Vec(*(float(x) for x in p)) for p in pts]
+    raw.cells += [tuple(c) for c in cells]
+    if "F" in cfg:
+        seen = set()
+        for c in cells:
+            v0, v1, v2, v3 = c
+            # "F": the i-th face of a cell is opposite its i-th vertex and wound as the documented convention winds it
+            # (outwards for a positively oriented cell); "Fa": the caller lists each triangle with ascending vertex ids
+            fs = [(v1, v3, v2), (v0, v2, v3), (v3, v1, v0), (v0, v1, v2)] if "a" not in cfg else \
+                [tuple(sorted(f)) for f in itertools.combinations(c, 3)]
+            for f in fs:
+                if frozenset(f) not in seen:
+                    seen.add(frozenset(f)); raw.faces.append(tuple(f))
+    if "E" in cfg:
+        seen = set()
+        for c in cells:
+            for e in itertools.combinations(c, 2):
+                if frozenset(e) not in seen:
+                    seen.add(frozenset(e)); raw.edges.append(tuple(sorted(e)))
+    return M.mesh.VolumeMesh(raw)
 
 
 # ------------------------------------------------------------------------------------------ geometry
@@ -433,7 +473,8 @@ def _explore(M, name, n, pts, cells, sort, rep, events, build, big=False):
 
     def icls(warm):
         return (f"tet:cells{'1' if len(o.C) == 1 else '2+'}:{'positive' if positive else 'mixed-orientation'}:"
-                f"sort={sort}:{'warm' if warm else 'fresh'}" + (":duplicate_attribute_flag" if DUP[0] else ""))
+                f"sort={sort}:{'warm' if warm else 'fresh'}" + (":duplicate_attribute_flag" if DUP[0] else "")
+                + (":" + CFG_CLASS[CFG[0]] if CFG[0] else ""))
     resets = {"connectivity.clear": lambda m: m.connectivity.clear()}
     seen = explore("C03", build, o, events, resets, _state_key, _content_key, rep, icls,
                    {"mesh": name, "n": n, "cells": [list(c) for c in cells] if not big else "see mc.families.cube_grid_tets(4)", "sort": sort},
@@ -461,7 +502,13 @@ def run_task(task, rep: Report):
     sort = bool(task["sort"])
     DEPTH[0] = task.get("depth", 2)
     M.config.sort_neighborhoods = sort
+    old_cf, old_ce = M.config.complete_faces_from_cells, M.config.complete_edges_from_faces
+    cfg = task.get("cfg")
+    CFG[0] = cfg
     try:
+        if cfg is not None:
+            M.config.complete_faces_from_cells = "F" not in cfg
+            M.config.complete_edges_from_faces = cfg in ("F", "Fa")
         events = _events(sort)
         if "big" in task:
             if task["big"].startswith("fansplit"):
@@ -489,8 +536,14 @@ def run_task(task, rep: Report):
                     continue
                 v = [tuple(c) for c in v]
                 DEPTH[0] = task.get("depth", 2) if tag.startswith("dev") else task.get("depth_base", 2)
+                if cfg is not None:
+                    _explore(M, f"{name}:{tag}:cfg={cfg}", n, pts, v, sort, rep, events, lambda v=v: _cfg_build(M, pts, v, cfg))
+                    rep.flag("cfg:" + cfg); rep.count("config_deviation_meshes")
+                    continue
                 _explore(M, f"{name}:{tag}", n, pts, v, sort, rep, events, lambda v=v: F.build_volume(pts, v, tuple))
     finally:
+        CFG[0] = None
+        M.config.complete_faces_from_cells, M.config.complete_edges_from_faces = old_cf, old_ce
         M.config.sort_neighborhoods = old
         M.config.display_duplicate_attribute_warning = old_dup
 
@@ -503,6 +556,9 @@ def finish(tier, rep: Report):
     for kind in ("other_face_side", "common_face", "is_face_on_border", "is_edge_on_border", "face_to_cells"):
         if len(rep.outcomes.get(kind, ())) < 2:
             fails.append(f"accessor {kind} produced a single distinct outcome")
+    for cfg in CONFIGS:
+        if "cfg:" + cfg not in rep.flags:
+            fails.append("configuration deviation not exercised: " + cfg)
     if rep.counters.get("premise_failed"):
         fails.append("oracle premise failed on some meshes")
     return fails
